@@ -365,3 +365,122 @@ Example c03_compact_ex_bytes :
 Proof.
   split; [vm_compute; reflexivity|]. intros req H. vm_compute in H. injection H as <-. vm_compute. reflexivity.
 Qed.
+
+(** * Several calls in flight at once through one generated client
+
+    Model/GenCallConc.v composes the registry model of C01 (Model/Registry.v: Register / Unregister /
+    Execute / dispatch and Request of the adapter and NATS transports, as an interleaving small-step
+    system over callers, send goroutines, clock, environment and the single reader) with the call
+    model above: the frame [reply_frame j] the reader dispatches for call [j] carries the op id that
+    Execute reads from the header block of the server's reply to [j] ([server_reply j], a function
+    of the request and of the handler's outcome for it alone -- the generated processor keeps no
+    state between requests), and [conc_outcome i o] is what the generated client method returns to
+    caller [i] once Request has returned [o] (processReply on the frame's payload).
+    [alone_outcome i] is the outcome of [rpc_call_c] for the same call made alone. *)
+From FV Require Import Model.Registry Model.GenCallConc Proofs.RegistryProofs Proofs.GenCallConcProofs.
+
+(** For either protocol ([cd]), either transport ([tk]), the pinned or the repaired dispatch ([b]), any
+    number [n] of callers whose op ids are pairwise distinct (C17) and each of whose replies is
+    delivered when the call is made alone ([delivered_aloneb]: Execute finds the caller's op id in
+    the reply's header block), EVERY event sequence the registry model accepts -- any interleaving of
+    callers, send goroutines, timeouts and reader steps -- in which the frames reaching dispatch are
+    server replies to these calls in any order, duplicated or late ([net_okb]; on NATS also status
+    503 messages): a two-way caller to which Request returns a frame gets exactly the outcome of
+    the same call made alone.  (Corollary of c01_own_response and of the server being a function.) *)
+Theorem c03_concurrent_calls_independent : forall cd fuel e pm calls tk b dl n evs s i f,
+  distinct_ops (call_op calls) n ->
+  all_below n (delivered_aloneb cd fuel e pm calls) = true ->
+  run tk b (init (call_op calls) dl n) evs = Some s ->
+  net_okb cd fuel e pm calls tk n evs = true ->
+  (i < n)%nat -> m_oneway (cc_m (calls i)) = false ->
+  c_phase (callers s i) = CDone (OOk f) ->
+  exists c, conc_outcome cd fuel e pm calls i (OOk f) = Some c /\ alone_outcome cd fuel e pm calls i = Some c.
+Proof. exact concurrent_calls_independent. Qed.
+Print Assumptions c03_concurrent_calls_independent.
+
+(** ... because the frame it was handed is the reply to its own request, never another caller's *)
+Theorem c03_concurrent_calls_own_reply : forall cd fuel e pm calls tk b dl n evs s i f,
+  distinct_ops (call_op calls) n ->
+  all_below n (delivered_aloneb cd fuel e pm calls) = true ->
+  run tk b (init (call_op calls) dl n) evs = Some s ->
+  net_okb cd fuel e pm calls tk n evs = true ->
+  (i < n)%nat ->
+  c_phase (callers s i) = CDone (OOk f) ->
+  reply_frame cd fuel e pm calls i = Some f.
+Proof. exact concurrent_calls_own_reply. Qed.
+Print Assumptions c03_concurrent_calls_own_reply.
+
+(** With the hypotheses of [c03_call_faithful] for each of the [n] calls (a lawful protocol, methods
+    served, well-typed arguments and handler outcomes, numeric op ids, replies that fit a frame):
+    in every interleaving every caller that gets a frame gets [map_outcome] of its own handler's
+    outcome. *)
+Theorem c03_concurrent_calls_faithful : forall cd, codec_ok cd -> forall e pm calls n,
+  distinct_ops (call_op calls) n ->
+  (forall j, (j < n)%nat ->
+     let c := calls j in
+     exists opid,
+       plookup (m_wire (cc_m c)) pm = Some (cc_m c) /\
+       m_oneway (cc_m c) = false /\
+       header_size (cc_hdrs c) < 2147483648 /\ Headers.lookup opid_header (cc_hdrs c) = Some opid /\
+       header_size (response_headers (to_map (cc_hdrs c)) opid) < 2147483648 /\
+       zlen (m_wire (cc_m c)) < 2147483648 /\
+       gwf e (TRef (m_args (cc_m c))) (VStruct (cc_args c)) /\
+       outcome_ok e (cc_m c) (cc_h c (m_wire (cc_m c)) (cc_args c)) /\
+       (exists k, parse_uint64 opid = Some k) /\
+       (forall reply, respond_c cd e (response_headers (to_map (cc_hdrs c)) opid) (cc_m c)
+                                (cc_h c (m_wire (cc_m c)) (cc_args c)) = Ok (Some reply) ->
+                      zlen reply < 2147483648)) ->
+  exists fuel0, forall fuel, (fuel0 <= fuel)%nat ->
+    forall tk b dl evs s i f,
+      run tk b (init (call_op calls) dl n) evs = Some s ->
+      net_okb cd fuel e pm calls tk n evs = true ->
+      (i < n)%nat -> c_phase (callers s i) = CDone (OOk f) ->
+      conc_outcome cd fuel e pm calls i (OOk f) =
+      Some (map_outcome e (cc_m (calls i)) (cc_h (calls i) (m_wire (cc_m (calls i))) (cc_args (calls i)))).
+Proof. exact concurrent_calls_faithful. Qed.
+Print Assumptions c03_concurrent_calls_faithful.
+
+(** Non-vacuity: three calls in flight through the derived client of the example program, op ids 7, 8, 9:
+    ping(7) answered "hi", ping(-1) answered with the declared exception, nop answered with a
+    TApplicationException.  The replies arrive in the order 2, 0, 0 again (dropped), 1 and are taken in
+    yet another order; every hypothesis of [c03_concurrent_calls_independent] holds, the run is accepted,
+    and every caller ends with the outcome of its call made alone (both protocols). *)
+Definition ex_conc_calls : nat -> ccall := fun i =>
+  match i with
+  | 0%nat => mkCcall ex_ping [ (opid_header, [55]); (cid_hdr, [99]) ] [Some (VInt 7)]
+                     (fun _ _ => HRet (Some (VBytes [104; 105])))
+  | 1%nat => mkCcall ex_ping [ (opid_header, [56]); (cid_hdr, [99]) ] [Some (VInt (-1))]
+                     (fun _ _ => HDeclared 1 (VStruct [Some (VBytes [110; 111])]) [])
+  | _ => mkCcall ex_nop [ (opid_header, [57]) ] [] (fun _ _ => HAppExc 42 [113])
+  end.
+Definition ex_fr (j : nat) (op : Z) : frame := {| f_op := op; f_tag := Z.of_nat j |}.
+Definition ex_conc_evs : list ev :=
+  [ERegister 0; ERegister 1; ERegister 2; ERelease 0; ERelease 1; ERelease 2; ESendOk 1; ESendOk 0; ESendOk 2;
+   EArrive (ex_fr 2 9); EDeliver; EArrive (ex_fr 0 7); EDeliver; EArrive (ex_fr 0 7); EDeliver;
+   EArrive (ex_fr 1 8); EDeliver;
+   ETake 1 TResult; ETake 2 TResult; EUnregister 2; ETake 0 TResult; EUnregister 0; EUnregister 1].
+
+Example c03_concurrent_nonvacuous :
+  forall cd, cd = bin_codec \/ cd = compact_codec ->
+  distinct_ops (call_op ex_conc_calls) 3
+  /\ all_below 3 (delivered_aloneb cd 50 ex_env ex_pm ex_conc_calls) = true
+  /\ net_okb cd 50 ex_env ex_pm ex_conc_calls KAdapter 3 ex_conc_evs = true
+  /\ match run KAdapter false (init (call_op ex_conc_calls) (fun _ => true) 3) ex_conc_evs with
+     | Some s =>
+       c_phase (callers s 0) = CDone (OOk (ex_fr 0 7))
+       /\ c_phase (callers s 1) = CDone (OOk (ex_fr 1 8))
+       /\ c_phase (callers s 2) = CDone (OOk (ex_fr 2 9))
+       /\ conc_outcome cd 50 ex_env ex_pm ex_conc_calls 0 (OOk (ex_fr 0 7)) = Some (CRet (Some (VBytes [104; 105])))
+       /\ conc_outcome cd 50 ex_env ex_pm ex_conc_calls 1 (OOk (ex_fr 1 8)) = Some (CDeclared 1 (VStruct [Some (VBytes [110; 111])]))
+       /\ conc_outcome cd 50 ex_env ex_pm ex_conc_calls 2 (OOk (ex_fr 2 9)) = Some (CAppExc 42 [113])
+       /\ alone_outcome cd 50 ex_env ex_pm ex_conc_calls 0 = Some (CRet (Some (VBytes [104; 105])))
+       /\ alone_outcome cd 50 ex_env ex_pm ex_conc_calls 1 = Some (CDeclared 1 (VStruct [Some (VBytes [110; 111])]))
+       /\ alone_outcome cd 50 ex_env ex_pm ex_conc_calls 2 = Some (CAppExc 42 [113])
+     | None => False
+     end.
+Proof.
+  intros cd Hcd. split.
+  - intros i j Hi Hj. destruct i as [|[|[|i]]]; destruct j as [|[|[|j]]]; try lia;
+      intros H; vm_compute in H; try discriminate H; reflexivity.
+  - destruct Hcd as [-> | ->]; vm_compute; repeat split.
+Qed.
